@@ -74,13 +74,13 @@ def optS {α : Type} : CV.Short.Out α → Option α
   | _ => none
 
 theorem transformKVs_trav (ign : Bool) (p : TPath) (m : KVs) :
-    optS (CV.Short.transformKVs ign p m) = travOpt (fun k e => optS (CV.Short.transform ign (TPath.next p k) e)) m := by
+    optS (CV.Short.transformKVs ign p m) = travOpt (fun k e => optS (CV.Short.transform ign (TPath.nextK p k) e)) m := by
   induction m with
   | nil => simp [CV.Short.transformKVs, travOpt, optS]
   | cons hd tl ih =>
     obtain ⟨k, e⟩ := hd
     rw [CV.Short.transformKVs, travOpt, ← ih]
-    cases CV.Short.transform ign (TPath.next p k) e <;> simp only [optS]
+    cases CV.Short.transform ign (TPath.nextK p k) e <;> simp only [optS]
     cases CV.Short.transformKVs ign p tl <;> simp only [optS]
 
 /-! ### `transform.SetDefaultValues`: the loop of `setDefaults` -/
